@@ -6,8 +6,17 @@ spec -> code : the pin machine C14_PinMachine reaches every pin word up to MaxLe
                short u by the ideal factor search and by the deviation FactorsMayTouch.  The real PinWords
                functions are compared; the enumeration and the mapping tables are compared as sets.
 code -> spec : longer random words and (word, sigma) pairs judged by Trace_C14.
+Beyond the machine's bound (all judged by TLC through single-purpose Trace_C14 events): quadrant at every index,
+factors, both translations, occurrence lists and containment of word pairs of lengths up to 9 (u longer than w, u = w,
+empty words, the same question twice, two occurrence iterators alive at once); the three lru-cached tables compared
+again after all other calls and after being rebuilt in the opposite order; a cold process whose first call is the
+length-6 table: every permutation the table maps to no word must be unreachable for the pin machine (TLC invariant
+TargetsNotPin), every other one is witnessed by a word that TLC decodes to it.
 """
+import concurrent.futures
 import json
+import subprocess
+import sys
 
 from permuta import Perm
 from permuta.permutils.pin_words import PinWords
@@ -82,6 +91,249 @@ def judge_word(ctx, rec, table_words):
                 ctx.violation(case, "StrictFactorOccurrences", ideal, sp)
 
 
+# ---- the lru-cached tables ------------------------------------------------------------------------------
+TABLES = {"w2p": "pinword_to_perm_mapping", "p2w": "perm_to_pinword_mapping", "strict": "perm_to_strict_pinword_mapping"}
+
+
+def compare_tables(ctx, table, maxlen, stage, order, enumerate_too=True):
+    """The enumeration and the three tables against the machine's words (as sets).  The tables are fetched in the
+    given order and compared only after all three have been fetched: building one must not disturb another."""
+    for n in range(0, maxlen + 1):
+        words = table.get(n, {})
+        case = {"kind": "table", "n": n, "stage": stage, "fetched in order": list(order)}
+        if enumerate_too:
+            # two enumerations alive at once, consumed alternately
+            g1, g2 = PinWords.pinwords_of_length(n), PinWords.pinwords_of_length(n)
+            st, got = util.call(lambda: [x for pair in zip(g1, g2) for x in pair])
+            ctx.case()
+            if st == "raise" or sorted(got[0::2]) != sorted(words) or sorted(got[1::2]) != sorted(words):
+                ctx.violation(dict(case, kind="enumeration"), "EnumerationIsPinWords", len(words), len(got) // 2 if st == "ok" else got)
+                continue
+        got = {}
+        for which in order:
+            st, m = util.call(getattr(PinWords, TABLES[which]), n)
+            if st == "raise":
+                ctx.violation(dict(case, table=TABLES[which]), "NoException", "a table", m)
+            else:
+                got[which] = m
+        ctx.case(n=3)
+        inv = {}
+        for wd, p in words.items():
+            inv.setdefault(p, set()).add(wd)
+        if "w2p" in got and {k: tuple(v) for k, v in got["w2p"].items()} != words:
+            ctx.violation(dict(case, table=TABLES["w2p"]), "WordToPermTable", "the decoded permutation of every word", "differs")
+        if "p2w" in got and {tuple(k): set(v) for k, v in got["p2w"].items() if v} != inv:
+            ctx.violation(dict(case, table=TABLES["p2w"]), "TablesInverse", "inverse of the word table", "differs")
+        want = {p: {x for x in ws if PinWords.is_strict_pinword(x)} for p, ws in inv.items()}
+        if "strict" in got and {tuple(k): set(v) for k, v in got["strict"].items() if tuple(k) in want or v} != want:
+            ctx.violation(dict(case, table=TABLES["strict"]), "StrictTable", "strict words of each permutation", "differs")
+
+
+def clear_tables():
+    """Forget the cached tables, where the implementation caches them with functools.lru_cache."""
+    done = 0
+    for name in TABLES.values():
+        f = getattr(getattr(PinWords, name), "cache_clear", None)
+        if f is not None:
+            f()
+            done += 1
+    return done
+
+
+# ---- a cold process: the first call is the table of a length beyond the machine's bound -----------------------
+COLD = r"""
+import json, sys
+from permuta import Perm
+from permuta.permutils.pin_words import PinWords
+n = int(sys.argv[1])
+m = PinWords.perm_to_pinword_mapping(n)
+out = []
+for p in Perm.of_length(n):
+    try:
+        ws = sorted(m[p])
+    except KeyError:
+        ws = []
+    out.append({"p": list(p), "n": len(ws), "words": sorted(set(ws[:1] + ws[-1:] + ws[len(ws) // 2:len(ws) // 2 + 1]))})
+sm = PinWords.perm_to_strict_pinword_mapping(n)
+for rec in out:
+    rec["strict"] = sorted(sm.get(Perm(rec["p"]), ()))
+    try:
+        rec["again"] = len(m[Perm(rec["p"])])
+    except KeyError:
+        rec["again"] = 0
+print(json.dumps(out))
+"""
+
+
+def cold_table_start(n):
+    return subprocess.Popen([sys.executable, "-c", COLD, str(n)], stdout=subprocess.PIPE, stderr=subprocess.PIPE, text=True)
+
+
+def cold_table_finish(ctx, proc, n, events):
+    """Judge the length-n table of the cold process: TLC must find no word decoding to a permutation the table maps
+    to no word (invariant TargetsNotPin over all words of length <= n); the listed words of every other permutation
+    become Perm events (TLC decodes them)."""
+    try:
+        out, err = proc.communicate(timeout=1500)
+    except subprocess.TimeoutExpired as ex:
+        proc.kill()
+        raise tlc.MachineryFailure("C14: cold table process timed out") from ex
+    case = {"kind": "table", "n": n, "stage": "cold process, first call"}
+    if proc.returncode != 0:
+        ctx.violation(case, "NoException", "the tables of length %d" % n, err.strip().splitlines()[-1:] or "failed")
+        return
+    recs = json.loads(out)
+    targets = [r["p"] for r in recs if r["n"] == 0]
+    nev = 0
+    for r in recs:
+        ctx.case(("cold", tuple(r["p"])), nontrivial=True)
+        if r["again"] != r["n"]:
+            ctx.violation(dict(case, p=r["p"]), "TablesInverse", {"words": r["n"]}, {"words when asked again": r["again"]})
+        for w in sorted(set(r["words"] + r["strict"])):
+            events.append({"op": "Perm", "w": list(w), "res": r["p"]})
+            nev += 1
+        if any(not PinWords.is_strict_pinword(w) for w in r["strict"]) or (r["n"] == 0 and r["strict"]):
+            ctx.violation(dict(case, p=r["p"]), "StrictTable", "strict words of the permutation", r["strict"])
+    ctx.note("cold_table", {"n": n, "permutations": len(recs), "mapped_to_no_word": len(targets), "witness_word_events": nev})
+    if not targets:
+        return
+    defs = {"TargetsDef": "{" + ", ".join(tlc.tla(list(p)) for p in targets) + "}"}
+    k = {"MaxLen": n, "ThmLen": 0, "PattLen": 0, "OccLen": 0, "Shard": 0, "NShards": 1, "Targets": ("<-", "TargetsDef")}
+    c = util.cfg(init="Init", next_="Next", invariants=["Decodes", "TargetsNotPin"], constants=k)
+    r = tlc.run_tlc("MC_C14", c, workers=4, timeout=3000, files={"MC_C14.tla": util.mc_module("MC_C14", "C14_PinMachine", defs)},
+                    allow_violation=True)
+    ctx.add_tlc(r, "pin machine to length %d: permutations the table maps to no word are unreachable" % n)
+    if r.violated == "TargetsNotPin":
+        import re
+        words = re.findall(r"word = (<<.*?>>)\n", r.stdout)
+        ctx.violation(dict(case, word=words[-1] if words else "?"), "TablesInverse",
+                      "every pin permutation is mapped to its words", "a permutation mapped to no word is the permutation of this word (TLC counterexample)")
+    elif r.violated:
+        raise tlc.MachineryFailure("C14: %s violated in the length-%d run" % (r.violated, n))
+
+
+# ---- code -> spec beyond the machine's bound: single-purpose events ---------------------------------------------------
+def rand_strict(rnd, n):
+    w = rnd.choice("1234")
+    while len(w) < n:
+        w += rnd.choice("UDLR" if len(w) == 1 else ("LR" if w[-1] in "UD" else "UD"))
+    return w
+
+
+def occ_event(ctx, w, u, res=None):
+    if res is None:
+        st, res = util.call(lambda: list(PinWords.pinword_occurrences(w, u)))
+        if st == "raise":
+            ctx.violation({"kind": "word", "w": w, "u": u}, "NoException", "the occurrences of u in w", res)
+            return []
+    st, c = util.call(PinWords.pinword_contains, w, u)
+    if st == "raise":
+        ctx.violation({"kind": "word", "w": w, "u": u}, "NoException", "pinword_contains", c)
+        return []
+    return [{"op": "Occ", "w": list(w), "u": list(u), "res": [list(t) for t in res], "c": bool(c)}]
+
+
+def long_events(ctx, rnd, quick, rand_word):
+    ev = []
+    few = lambda w, k=4: sum(c in "1234" for c in w) <= k      # the model enumerates |w| ^ (number of factors of u) tuples
+    scale = 1 if quick else 8
+    # quadrant of every pin (first and last index included), factors, of words of length 6..9
+    for i in range(24 * scale):
+        w = rand_word(rnd.randint(6, 9)) if i % 3 else rand_strict(rnd, rnd.randint(6, 9))
+        for idx in range(len(w)):
+            st, got = util.call(PinWords.quadrant, w, idx)
+            ev.append({"op": "Quad", "w": list(w), "i": idx, "res": got if st == "ok" else "raised " + str(got)})
+        ev.append({"op": "Factors", "w": list(w), "res": [list(f) for f in PinWords.factor_pinword(w)]})
+    for w in ["", "1", "2", "3", "4"]:
+        ev.append({"op": "Factors", "w": list(w), "res": [list(f) for f in PinWords.factor_pinword(w)]})
+    # the two translations on long strict words / direction words, there and back
+    for i in range(30 * scale):
+        w = rand_strict(rnd, rnd.choice([1, 2, 6, 7, 8, 9]))
+        st, ms = util.call(PinWords.sp_to_m, w)
+        if st == "raise":
+            ctx.violation({"kind": "word", "w": w}, "NoException", "sp_to_m", ms)
+            continue
+        ev.append({"op": "SpToM", "w": list(w), "res": [list(m) for m in ms]})
+        for m in ms:
+            st, back = util.call(PinWords.m_to_sp, m)
+            ev.append({"op": "MToSp", "m": list(m), "res": list(back) if st == "ok" else ["raised"]})
+    for i in range(20 * scale):
+        m = rnd.choice("UDLR")
+        while len(m) < rnd.choice([2, 3, 7, 8, 9, 10]):
+            m += rnd.choice("LR" if m[-1] in "UD" else "UD")
+        st, sp = util.call(PinWords.m_to_sp, m)
+        ev.append({"op": "MToSp", "m": list(m), "res": list(sp) if st == "ok" else ["raised"]})
+        if st == "ok":
+            st, ms = util.call(PinWords.sp_to_m, sp)
+            ev.append({"op": "SpToM", "w": list(sp), "res": [list(x) for x in ms] if st == "ok" else [["raised"]]})
+    # occurrence lists and containment of word pairs
+    pairs = [("", ""), ("", "1"), ("", "3R"), ("1", ""), ("1", "1"), ("1", "3"), ("4", "4R"), ("2U", "2U"), ("2U", "2UL")]
+    for i in range(36 * scale):
+        w = rand_word(rnd.randint(5, 9))
+        kind = i % 6
+        if kind in (0, 1):
+            u = rand_word(rnd.randint(1, 4))
+        elif kind == 2:                                   # u = w
+            while not few(w):
+                w = rand_word(rnd.randint(5, 9))
+            u = w
+        elif kind == 3:                                   # u longer than w
+            u = w + rand_word(rnd.randint(1, 3)) if rnd.random() < 0.5 else rand_word(len(w) + rnd.randint(1, 2))
+            while not few(u):
+                w = rand_word(rnd.randint(5, 8))
+                u = w + rnd.choice("1234")
+        elif kind == 4:                                   # a numeral-led piece of w
+            starts = [j for j, c in enumerate(w) if c in "1234"]
+            a = rnd.choice(starts)
+            u = w[a:a + rnd.randint(1, 5)]
+            u = u if few(u) else u[:2]
+        else:                                             # the empty word and single letters
+            u = rnd.choice(["", "1", "2", "3", "4"])
+        pairs.append((w, u))
+    pairs += [pairs[j] for j in range(9, len(pairs), 5)]  # the same question again, after the others
+    for w, u in pairs:
+        ev += occ_event(ctx, w, u)
+    # two occurrence iterators alive at once, consumed alternately
+    for i in range(8 * scale):
+        w = rand_word(rnd.randint(6, 9))
+        u1, u2 = rand_word(rnd.randint(1, 3)), rnd.choice(["1", "2", "3", "4", rand_word(2)])
+        try:
+            it1, it2 = PinWords.pinword_occurrences(w, u1), PinWords.pinword_occurrences(w, u2)
+            r1, r2 = [], []
+            live = [(it1, r1), (it2, r2)]
+            while live:
+                for pair in list(live):
+                    x = next(pair[0], None)
+                    if x is None:
+                        live.remove(pair)
+                    else:
+                        pair[1].append(x)
+        except Exception as e:  # pylint: disable=broad-except
+            ctx.violation({"kind": "word", "w": w, "u": [u1, u2]}, "NoException", "two live occurrence iterators", type(e).__name__)
+            continue
+        ev += occ_event(ctx, w, u1, r1) + occ_event(ctx, w, u2, r2)
+    # strict factors
+    for i in range(30 * scale):
+        w = rand_word(rnd.randint(5, 9)) if i % 4 else rand_strict(rnd, rnd.randint(5, 8))
+        kind = i % 5
+        u = rand_strict(rnd, rnd.randint(1, 4))
+        if kind == 3:
+            starts = [j for j in range(len(w)) if all(c in "UDLR" for c in w[j + 1:j + 3])]
+            if starts:
+                a = rnd.choice(starts)
+                st, q = util.call(PinWords.quadrant, w, a)
+                u = (q if st == "ok" and q in "1234" else "1") + w[a + 1:a + 3]
+        if kind == 4 and PinWords.is_strict_pinword(w):
+            u = w if i % 2 else w + rnd.choice("UD" if w[-1] in "LR" else "LR")
+        st, res = util.call(lambda: list(PinWords.pinword_occurrences_sp(w, u)))
+        st2, c = util.call(PinWords.pinword_contains_sp, w, u)
+        if st == "raise" or st2 == "raise":
+            ctx.violation({"kind": "word", "w": w, "u": u}, "NoException", "strict occurrences", [res, c])
+            continue
+        ev.append({"op": "OccSP", "w": list(w), "u": list(u), "res": list(res), "c": bool(c)})
+    return ev
+
+
 def run(ctx):
     quick = ctx.tier == "quick"
     maxlen, thm = (4, 3) if quick else (5, 4)
@@ -89,8 +341,10 @@ def run(ctx):
     san = ("LibSanity_Pin", util.cfg(init="Init", next_="Next"), {"workers": 2, "timeout": 1800})
     jobs = [san]
     for s in range(nsh):
-        k = {"MaxLen": maxlen, "ThmLen": thm, "PattLen": 3, "OccLen": 2, "Shard": s, "NShards": nsh}
+        k = {"MaxLen": maxlen, "ThmLen": thm, "PattLen": 3, "OccLen": 2, "Shard": s, "NShards": nsh, "Targets": "{}"}
         jobs.append(("C14_PinMachine", util.cfg(init="Init", next_="Next", invariants=INVS + ["EmitState"], constants=k), {"timeout": 3000}))
+    cold_n = 6
+    cold = cold_table_start(cold_n)
     results = tlc.run_many(jobs, parallel=16)
     ctx.add_tlc(results[0], "LibSanity_Pin")
     table = {}
@@ -103,25 +357,7 @@ def run(ctx):
             if nrec % 499 == 0:
                 ctx.sample({"machine": "C14_PinMachine", "w": rec["w"], "perm": rec["perm"], "quad": rec["quad"], "contains": rec["contains"][:3]})
     # the enumeration and the three mapping tables, as sets
-    for n in range(0, maxlen + 1):
-        words = table.get(n, {})
-        st, got = util.call(lambda: sorted(PinWords.pinwords_of_length(n)))
-        if st == "raise" or got != sorted(words) or len(got) != len(set(got)):
-            ctx.violation({"kind": "enumeration", "n": n}, "EnumerationIsPinWords", len(words), len(got) if st == "ok" else got)
-            continue
-        m = PinWords.pinword_to_perm_mapping(n)
-        if {k: tuple(v) for k, v in m.items()} != words:
-            ctx.violation({"kind": "table", "n": n}, "WordToPermTable", "the decoded permutation of every word", "differs")
-        inv = {}
-        for wd, p in words.items():
-            inv.setdefault(p, set()).add(wd)
-        pm = PinWords.perm_to_pinword_mapping(n)
-        if {tuple(k): set(v) for k, v in pm.items() if v} != inv:
-            ctx.violation({"kind": "table", "n": n}, "TablesInverse", "inverse of the word table", "differs")
-        spm = PinWords.perm_to_strict_pinword_mapping(n)
-        want = {p: {x for x in ws if PinWords.is_strict_pinword(x)} for p, ws in inv.items()}
-        if {tuple(k): set(v) for k, v in spm.items()} != want:
-            ctx.violation({"kind": "table", "n": n}, "StrictTable", "strict words of each permutation", "differs")
+    compare_tables(ctx, table, maxlen, "first use", ("w2p", "p2w", "strict"))
     exp_words = sum(len(table.get(n, {})) for n in range(maxlen + 1))
     if nrec != exp_words or exp_words < 1800:
         raise tlc.MachineryFailure("C14: %d words emitted" % nrec)
@@ -152,9 +388,20 @@ def run(ctx):
         s = util.rand_perm(rnd, rnd.choice([2, 3, 3]))
         us = PinWords.perm_to_pinword_mapping(len(s))[Perm(s)]
         events.append({"op": "Contains", "w": list(w), "s": list(s), "res": any(PinWords.pinword_contains(w, u) for u in us)})
-    chunks = [events[i::6] for i in range(6)]
-    import concurrent.futures
-    with concurrent.futures.ThreadPoolExecutor(max_workers=6) as ex:
+    nold = len(events)
+    events += long_events(ctx, rnd, quick, rand_word)
+    ctx.note("single_purpose_events", {op: sum(1 for e in events[nold:] if e["op"] == op) for op in ("Quad", "Factors", "SpToM", "MToSp", "Occ", "OccSP")})
+    # the tables again: after all the other calls, then rebuilt with the strict table first
+    compare_tables(ctx, table, maxlen, "after all other calls", ("w2p", "p2w", "strict"), enumerate_too=False)
+    if clear_tables() == len(TABLES):
+        compare_tables(ctx, table, maxlen, "rebuilt after cache_clear", ("strict", "p2w", "w2p"), enumerate_too=False)
+        compare_tables(ctx, table, maxlen, "asked again", ("p2w", "strict", "w2p"), enumerate_too=False)
+    else:
+        ctx.note("tables_not_lru_cached", True)
+    cold_table_finish(ctx, cold, cold_n, events)
+    nch = 8
+    chunks = [events[i::nch] for i in range(nch)]
+    with concurrent.futures.ThreadPoolExecutor(max_workers=nch) as ex:
         vs = list(ex.map(lambda ch: util.validate_trace(ctx, "Trace_C14", ch, constants={"TPattLen": 3}, ntraces=len(ch), timeout=3000), chunks))
     for ch, v in zip(chunks, vs):
         for b in v["verdict"]:
@@ -162,7 +409,8 @@ def run(ctx):
             if b["clause"].startswith("dev:"):
                 e = ctx.known_entry(SITE, DEV)
                 if e is not None:
-                    ctx.known_finding(e, {"w": "".join(ev["w"]), "sigma": ev["s"], "answered": ev["res"]})
+                    ctx.known_finding(e, {"w": "".join(ev["w"]), "sigma": ev["s"], "answered": ev["res"]} if "s" in ev else
+                                      {"w": "".join(ev["w"]), "u": "".join(ev["u"]), "listed": ev["res"]})
                     continue
             ctx.violation({"kind": "trace-event", "event": ev}, b["clause"].replace("dev:", "ContainmentReflected/"), "value by definition", ev["res"])
     ctx.case(n=len(events))
@@ -170,7 +418,10 @@ def run(ctx):
     ctx.rule = ("TLC explores the pin machine: every pin word up to the bound is a reachable state (non-trivial = length >= 2 "
                 "with a direction letter); decoding, quadrants, factors, translations, containment of every sigma <= 3 and "
                 "occurrence sets of every u <= 2 are compared with the real code; the containment theorem is an invariant of "
-                "the model; longer random words and pairs via Trace_C14")
+                "the model; longer random words and pairs via Trace_C14; beyond the bound, single-purpose Trace_C14 events: "
+                "quadrant at every index, factors, translations there and back, occurrence lists of word pairs up to length 9 "
+                "(u longer than / equal to w, empty words, repeated questions, two live iterators); tables re-compared after all "
+                "other calls and after a rebuild in the opposite order; length-6 table of a cold process against TargetsNotPin")
 
 
 def replay(ctx, path):
